@@ -27,8 +27,8 @@ CONSTANTS Rep,          \* replicas = sources (strings)
                         \*  the harness binds the names to real source ids by a seeded permutation)
 
 ASSUME Rep = {"a", "b", "c"}
-(* functions over Rep are built as explicit records: TLC evaluates them eagerly (a function constructor is a lazily
-   re-evaluated closure, which made the nested vector operations ~10x slower) *)
+(* functions over Rep are built as explicit records: eager values in TLC (a function constructor is a closure that is
+   re-evaluated on every application until the state is fingerprinted) *)
 Fn(F(_)) == [a |-> F("a"), b |-> F("b"), c |-> F("c")]
 NoSrc == ""
 Zero  == Fn(LAMBDA x : 0)
